@@ -83,6 +83,9 @@ pub struct Cfg {
     /// VMess: UUID strings registered at the server, and the index the client uses
     pub uuids: Vec<String>,
     pub client_uuid: usize,
+    /// SS 2022 (SIP023): identity keys of relays the client's request passes BEFORE it reaches this server
+    /// (the client's password is chain[0]:chain[1]:...:server key:user key); empty in every ordinary deployment
+    pub chain: Vec<Vec<u8>>,
 }
 
 pub fn uuid_string(b: &[u8; 16]) -> String {
@@ -92,7 +95,7 @@ pub fn uuid_string(b: &[u8; 16]) -> String {
 
 impl Cfg {
     pub fn random(rng: &mut Rng, proto: Proto, n_users: usize) -> Cfg {
-        let mut c = Cfg { proto, password: String::new(), server_psk: vec![], users: vec![], client_user: None, uuids: vec![], client_uuid: 0 };
+        let mut c = Cfg { proto, password: String::new(), server_psk: vec![], users: vec![], client_user: None, uuids: vec![], client_uuid: 0, chain: vec![] };
         match proto {
             Proto::Ss(m) => {
                 if m.is_2022() {
@@ -131,7 +134,7 @@ impl Cfg {
         let m = self.method().expect("ss");
         if m.is_2022() {
             match self.client_user {
-                Some(i) => refimpl::ss::Keys { psk: self.users[i].1.clone(), ipsks: vec![self.server_psk.clone()] },
+                Some(i) => refimpl::ss::Keys { psk: self.users[i].1.clone(), ipsks: self.chain.iter().cloned().chain([self.server_psk.clone()]).collect() },
                 None => refimpl::ss::Keys { psk: self.server_psk.clone(), ipsks: vec![] },
             }
         } else {
@@ -157,7 +160,7 @@ impl Cfg {
     pub fn client_password(&self) -> String {
         match self.proto {
             Proto::Ss(m) if m.is_2022() => match self.client_user {
-                Some(i) => format!("{}:{}", b64_encode(&self.server_psk), b64_encode(&self.users[i].1)),
+                Some(i) => self.chain.iter().map(|k| b64_encode(k)).chain([b64_encode(&self.server_psk), b64_encode(&self.users[i].1)]).collect::<Vec<_>>().join(":"),
                 None => b64_encode(&self.server_psk),
             },
             Proto::Vmess(_) => self.uuids[self.client_uuid].clone(),
